@@ -361,6 +361,15 @@ def judge_bound(acc, w, sig0, detail, tname, mname, t, m, x, overwrite, aro, mar
         return
     rel_m = relation(ref, m, x)
     rel_t = relation(ref, t, x)
+    if outcome == "GhostRevisionsHaveNoRevno" and x is not None and ref.lefthand_ends_in_ghost(x):
+        # the revno of the requested revision cannot be computed (left-hand history ends in a ghost):
+        # a refusal by the master or by the local branch; nothing may have moved except a master
+        # that had already accepted the revision
+        if nt != t:
+            acc.violation("%s:failed-with-GhostRevisionsHaveNoRevno-but-tip-changed" % sig0, dict(detail, new_local=nt))
+        if nm != m:
+            judge_target(acc, w, sig0 + ":master", detail, mname, m, x, overwrite, maro, "ok", new_m)
+        return
 
     def would(rel, old):
         return x if (overwrite or rel == "descends") and x is not None else old
@@ -531,7 +540,7 @@ def replay(ctx, data):
     if d.get("vcs") == "git":
         acc = _work_git([dag])
     else:
-        acc = _work([(dag, frozenset(d.get("ghosts", ())), len(dag) >= 5)])
+        acc = _work([(dag, frozenset(d.get("ghosts", ())), True)])
     hit = [v for v in acc.violations if v[0] == data["signature"]]
     for sig, det in hit:
         print("  ", sig, {k: det[k] for k in det if k not in ("dag",)})
